@@ -98,6 +98,9 @@ _FN = {}
 def fn_table(pid):
     if pid not in _FN:
         text = open(os.path.join(COQ, "Model", f"Dispatch{pid}.v")).read()
+        inc = re.search(r"fn-table:\s*(\w+)", text)
+        if inc:
+            text = open(os.path.join(COQ, "Model", inc.group(1) + ".v")).read()
         _FN[pid] = {m.group(2): int(m.group(1)) for m in re.finditer(r"\|\s*(\d+)\s*\(\*\s*(\w+)\s*\*\)", text)}
     return _FN[pid]
 
